@@ -184,7 +184,24 @@ theorem set_create (s : Symbols) (hi : Inv s) (name : String) (v : Nat) (s' : Sy
     · subst hz
       simp only [bne_self_eq_false, Bool.false_eq_true, if_false] at h
       split at h
-      · cases h
+      · -- the second find returned nullptr: `return -1`; only the locked no-op append gets here
+        rename_i hnone1
+        injection h with hs hr
+        left
+        refine ⟨hr.symm, ?_⟩
+        rcases happ' with ⟨hm, _⟩ | ⟨_, hs1⟩ | ⟨_, l1, l2, e, h1, h2, hn, ha, hsc, _⟩
+        · cases hm
+        · rw [← hs, hs1]
+        · -- an entry was inserted: it is visible from where it was defined, so find cannot fail
+          exfalso
+          have hl1 := findRef_none_lfind s1 hwf1 name hnone1
+          have hr1 : s1.inScope = s.inScope ∧ s1.currentScope = s.currentScope := by
+            have := hregs1; simp only [regs, Prod.mk.injEq] at this; exact this
+          have hfresh := fresh_of_lfind_none (abs s1) s1.inScope s1.currentScope name hl1
+          apply hfresh
+          rw [h2, hr1.1, hr1.2]
+          apply List.mem_map.2
+          exact ⟨e, by simp, by simp [keyOf, hn, hsc, defScope_eq]⟩
       · rename_i r1' hr1'
         injection h with hs hr
         rcases happ' with ⟨hm, _⟩ | ⟨_, hs1⟩ | ⟨_, l1, l2, e, h1, h2, hn, ha, hsc, _⟩
